@@ -60,10 +60,17 @@ def run(ctx):
     # the small value classes (pairs, tokenizers, URLs, regexps): SmallObj.tla lifecycles with per-script heap balance
     from checks import c05
     c05.small_objects(ctx)
+    # str / ustr: size sweeps, long sprintf outputs into strings that already own a buffer, strings with spare capacity - with a
+    # per-call heap account (checks/c01.py, harness/str_replay.c)
+    from checks import c01
+    c01.heap_families(ctx)
     ctx.cov["exhaustive"] = True
     ctx.cov["rule"] = "every transition of Ownership.tla in scope, once per container kind and class, with heap balance per script"
     ctx.assumptions += ["objects are spif_str; ASan build of the current tree (clang -O1)"]
 
 
 def replay(ctx, path):
+    if (json.load(open(path)).get("replay") or {}).get("check") == "c01":      # a str/ustr heap-accounted run (c01.heap_families)
+        from checks import c01
+        return c01.replay(ctx, path)
     return objcheck.replay_file(harness(ctx), [], path, ctx.rundir)
